@@ -598,3 +598,77 @@ func c13EveryPartChecked(w *World, r *Report) {
 	}
 	r.Check(rest && (first || startsAt == 0), "R13.4", "validateRangeBoundaries checks end >= start for every part", f.Pos(), "part 0 on every path, parts 1..n-1 in the loop", "some part of a multi-part range/length is not tested for end < start (e.g. the first part when there are several): `range \"9..3 | 20..30\"` compiles and the leaf silently accepts nothing in 3..9")
 }
+
+// R12.8  expansion reaches every statement: expandGroupings calls itself for
+// every child of the node it handles (on every iteration of the loop over the
+// children), so a `uses` nested anywhere — also below a data node inside a
+// grouping body — is expanded in the module that defines it, before the body
+// is cloned into a using module.
+func c12ExpandEveryChild(w *World, r *Report) {
+	f := w.SSAFunc(w.Method("compile", "Compiler", "expandGroupings"))
+	if f == nil {
+		panic(undecided{"Compiler.expandGroupings"})
+	}
+	found, ok, why := everyIterationCalls(f, func(c ssa.CallInstruction) bool { return c.Common().StaticCallee() == f })
+	if !found {
+		panic(undecided{"expandGroupings: recursive descent"})
+	}
+	r.Check(ok, "R12.8", "expandGroupings descends into every child", f.Pos(), "recursive call on every iteration of the child loop", "some children are not descended into ("+why+"): a uses below them is expanded only later, on the clone, and its nodes are re-homed to the wrong module")
+}
+
+// R12.9  every when / must statement on a node becomes a context of the
+// compiled node: BuildWhens and BuildMusts append one context per statement
+// on every iteration (a when inherited from a uses or augment stands next to
+// the node's own one even when both are spelled alike).
+func c12EveryWhenMust(w *World, r *Report) {
+	for _, c := range []struct{ fn, ctor string }{{"BuildWhens", "NewWhenContext"}, {"BuildMusts", "NewMustContext"}} {
+		f := w.SSAFunc(w.Method("compile", "Compiler", c.fn))
+		if f == nil {
+			panic(undecided{"Compiler." + c.fn})
+		}
+		found, ok, why := everyIterationAppends(f, func(call *ssa.Call) bool {
+			return call.Call.StaticCallee() != nil && call.Call.StaticCallee().Name() == c.ctor
+		})
+		if !found {
+			panic(undecided{c.fn + ": loop over the statements"})
+		}
+		r.Check(ok, "R12.9", c.fn+" keeps every statement", f.Pos(), "append("+c.ctor+"(…)) on every iteration", "a statement can be skipped ("+why+"): e.g. the when of an augment is dropped for a node whose own when has the same text, so the augment's condition no longer guards that node")
+	}
+}
+
+// R14.10  a deviate statement is checked property by property against the
+// target as it is *after* the preceding properties were applied: in doDeviate
+// the legality check and the edit of one property happen in the same
+// iteration, check first.
+func c14DeviateInterleaved(w *World, r *Report) {
+	f := w.SSAFunc(w.Method("compile", "Compiler", "doDeviate"))
+	if f == nil {
+		panic(undecided{"Compiler.doDeviate"})
+	}
+	var chk, act *ssa.BasicBlock
+	for _, b := range f.Blocks {
+		for _, in := range b.Instrs {
+			c, ok := in.(*ssa.Call)
+			if !ok || !c.Call.IsInvoke() {
+				continue
+			}
+			switch c.Call.Method.Name() {
+			case "isAllowed":
+				chk = b
+			case "propertyAction":
+				act = b
+			}
+		}
+	}
+	if chk == nil || act == nil {
+		panic(undecided{"doDeviate: isAllowed / propertyAction calls"})
+	}
+	same := false
+	for _, l := range ssaLoops(f) {
+		body := l.body()
+		if body[chk] && body[act] && chk.Dominates(act) {
+			same = true
+		}
+	}
+	r.Check(same, "R14.10", "doDeviate checks and applies property by property", f.Pos(), "isAllowed(p) then propertyAction(p) in the same iteration", "all properties are checked against the unmodified target before any is applied: a deviate that names the same single-instance property twice (`deviate add { default 1; default 2; }`) is accepted")
+}
